@@ -548,5 +548,28 @@ def check_timecodec(pid, tier, seed, scratch, replay):
     return rep.finish()
 
 
+@register("C02")
+def check_vtt(pid, tier, seed, scratch, replay):
+    return codec_check(pid, tier, seed, scratch, dict(
+        name="vtt", gen_module="GenVtt", gen_cfg="GenVtt.cfg", drive_cmd="vtt", trace_module="TraceVtt", trace_cfg="TraceVtt.cfg",
+        mc=[("VttMC", "MC_Vtt_H.cfg", None), ("VttMC", "MC_Vtt_C.cfg", None), ("VttMC", "MC_Vtt_P.cfg", None)],
+        gens=[(dict(GEN_FAM="H"), 2, 2, None), (dict(GEN_FAM="C"), 10, 10, None), (dict(GEN_FAM="P"), 1, 1, None)],
+        nrand=(0, 0), per_jvm=2500,
+        rule=("TLC enumerates ground truths of three families - H: timestamp map x STYLE block (0-2 lines) x regions (0-2, with "
+              "lines/width/scroll) x region reference; C: one cue with id present/absent x 0-2 comment lines x 4 cue-setting subsets "
+              "x voice x 1-2 runs over 7 tag stacks (depth 0-3, classes, annotation) x inline timestamp, or two lines; P: two cues "
+              "(tag stack / comment / id state between cues) - x every rendering (header trailing text, LF/CRLF/CR, BOM, mm:ss.ttt vs "
+              "hh:mm:ss.ttt, tab vs space before settings, tags closed per run vs shared by proper nesting); each document is "
+              "concretised with 4 text pools and read by ReadFromWebVTT; each truth is written by WriteToWebVTT, lexed by the "
+              "harness's own lexer, decoded by the TLA+ reference decoder (which also checks that a region is defined before use) "
+              "and re-read by the library. Non-trivial = distinct (truth, rendering, pool)."),
+        assumptions=["text atoms carry no leading/trailing white space; adjacent runs with identical tag stacks and no timestamp between them are one run",
+                     "regions use the 'Region: id=... k=v' line syntax the library itself writes; NOTE always carries text",
+                     "the reference decoder is model-checked against every rendering in the same run (VttMC)"],
+        nontrivial=lambda ev: True,
+        key=lambda ev: [ev["dir"], ev["g"], ev["d"], ev["n"] % 4],
+    ))
+
+
 def selftest(pid, tier, seed, scratch, replay):
     raise Infra("selftest not implemented yet")
